@@ -785,6 +785,8 @@ protected:
   }
 
 public:
+  // (a run must not inherit the finder that an earlier run of the same process captured)
+  static inline void forget_finder() { captured_finder.store(nullptr, std::memory_order_relaxed); }
   static inline bool destroyed_object_still_listed(rlbox_sim_sandbox* obj)
   {
     Finder finder = captured_finder.load(std::memory_order_relaxed);
